@@ -28,9 +28,18 @@ def points(P, scalar):
     """P: list of lists of 'n/d'.  scalar -> plain Fractions, else numpy object vectors."""
     if P is None:
         return None
+    if INT_POINTS and CONV is None and P and all(x.split("/")[1] == "1" for pt in P for x in pt):
+        # all coordinates integral: handed over as Python ints / integer numpy arrays, the way a user would type them
+        # (with Fraction knots the results must still be exact rationals)
+        if scalar:
+            return [int(pt[0].split("/")[0]) for pt in P]
+        return [np.array([int(x.split("/")[0]) for x in pt]) for pt in P]
     if scalar:
         return [num(pt[0]) for pt in P]
     return [np.array([num(x) for x in pt], dtype="object") for pt in P]
+
+
+INT_POINTS = True
 
 
 class FloatSeen(Exception):
